@@ -112,6 +112,7 @@ func ops() map[string]opSpec {
 	reg := func(n string, f func(e *env) string) { m[n] = opSpec{n, f} }
 	reg("Add(x)", add("x", g1, true))
 	reg("Add(x)#2", add("x", g2, true))
+	reg("Add(x)#3", add("x", g2, true))
 	reg("Add(auto)", add("", g2, true))
 	reg("Add(y,started)", add("y", g2, false))
 	reg("Remove(x)", func(e *env) string { return fmt.Sprint(e.s.RemoveTorrent("x", true)) })
@@ -633,7 +634,7 @@ func combos(names []string, k int, withRepeat bool) [][]string {
 func TestC14Conc(t *testing.T) {
 	serveIfWorker(t)
 	rep := core.NewReport("C14", "threadlab-registry", "model_checking")
-	rep.Rule = "thread sets of size 2-3 over {Add(x), Add(x) again, Add(auto), Add(y,started), Remove(x), Remove(a), StartAll, updateStats, Stop(a)} against a session holding one running torrent; every schedule with <= bound preemptions at lock acquisitions of the session's and bbolt's locks; final registry state: unique ids, no shared port, free + owned ports == range, session == resume database"
+	rep.Rule = "thread sets of size 2-3 over {Add(x), Add(x) again (up to three adds of one id), Add(auto), Add(y,started), Remove(x), Remove(a), StartAll, updateStats, Stop(a)} against a session holding one running torrent; every schedule with <= bound preemptions at lock acquisitions of the session's and bbolt's locks; final registry state: unique ids, no shared port, free + owned ports == range, session == resume database"
 	rep.Assumptions = []string{"scheduling points are the Lock/RLock calls of mTorrents, mPorts, mPeerRequests, mBlocklist, mBitfield and bbolt's db locks made by the harness threads; other goroutines run to quiescence between decisions", "data races are the free-running race pass"}
 	names := []string{"Add(x)", "Add(x)#2", "Add(auto)", "Add(y,started)", "Remove(x)", "Remove(a)", "StartAll", "updateStats", "Stop(a)"}
 	sets := combos(names, 2, false)
@@ -642,6 +643,8 @@ func TestC14Conc(t *testing.T) {
 	} else {
 		sets = append(sets, []string{"Add(x)", "Add(x)#2", "Add(auto)"}, []string{"Add(x)", "Remove(x)", "Add(x)#2"}, []string{"StartAll", "updateStats", "Add(auto)"})
 	}
+	// three adds of one id: a failing duplicate must not disturb the reservation of the add in flight
+	sets = append(sets, []string{"Add(x)", "Add(x)#2", "Add(x)#3"}, []string{"Remove(x)", "Add(x)#2", "Add(x)#3"})
 	budget := 2
 	explore("TestC14Conc", rep, sets, budget)
 	rep.Finish()
